@@ -2,6 +2,7 @@
 A module to evaluate datetimes and whether they are "on the edge" of a German "Stromtag" or "Gastag" respectively
 """
 
+import re
 from datetime import datetime, time, timedelta
 from typing import Callable, Literal, Optional, Tuple, Union
 
@@ -13,6 +14,16 @@ from pytz import timezone
 from ahbicht.models.condition_nodes import EvaluatedFormatConstraint
 
 berlin = timezone("Europe/Berlin")
+
+# datetime.fromisoformat is lenient: it accepts any character as separator between date and time, one surplus character
+# after a complete time or offset ('00:000+01:00', '00:00:00x+01:00') and a trailing NUL. This is the shape of what we
+# accept: calendar or week date (extended or basic), 'T' or blank, time (reduced precision allowed), 'Z' or an offset.
+_DATETIME_WITH_OFFSET_PATTERN = re.compile(
+    r"(?:\d{4}-\d{2}-\d{2}|\d{8}|\d{4}-?W\d{2}(?:-?\d)?)[Tt ]"
+    r"\d{2}(?::?\d{2}(?::?\d{2}(?:[.,]\d+)?)?)?"
+    r"(?:[Zz]|[+-]\d{2}(?::?\d{2}(?::?\d{2}(?:\.\d+)?)?)?)?",
+    re.ASCII,
+)
 
 
 def _get_german_local_time(date_time: datetime) -> time:
@@ -37,6 +48,8 @@ def parse_as_datetime(entered_input: str) -> Tuple[Optional[datetime], Optional[
             error_message="An empty or None string cannot be parsed as datetime",
         )
     try:
+        if _DATETIME_WITH_OFFSET_PATTERN.fullmatch(entered_input) is None:
+            raise ValueError(f"Invalid isoformat string: '{entered_input}'")
         if entered_input.endswith("Z"):
             entered_input = entered_input.replace("Z", "+00:00")
         result = datetime.fromisoformat(entered_input)
